@@ -294,7 +294,7 @@ func ctxWritePayload() []byte {
 }
 
 // compileBlock turns the instruction list of one frame into byte code.
-func (w *world) compileBlock(a *evmx.Asm, prog []Instr, cancun bool) {
+func (w *world) compileBlock(a *evmx.Asm, prog []Instr, cancun bool, failsAtLast bool) {
 	ncall := 0
 	for _, in := range prog {
 		switch in.Op {
@@ -392,8 +392,14 @@ func (w *world) compileBlock(a *evmx.Asm, prog []Instr, cancun bool) {
 			panic("unknown op " + in.Op)
 		}
 	}
-	// a frame whose behaviour ended without a terminator cannot occur: the model
-	// always ends a running frame with a halt instruction. Guard anyway.
+	// A frame that the model ends with a non-halting instruction ends there because that instruction must fail (a write in a static
+	// frame, an unregistered journal key, an opcode the fork does not have): what follows is a STOP, so that a real instruction
+	// that wrongly succeeds makes the frame succeed and the difference shows in the caller's flag. Otherwise the model always ends
+	// a running frame with a halt instruction; guard anyway.
+	if failsAtLast {
+		a.Op(vm.STOP)
+		return
+	}
 	a.Op(vm.INVALID)
 }
 
@@ -420,7 +426,12 @@ func (w *world) compileContract(name string, frames []FrameDesc, cancun bool) []
 	a.Op(vm.INVALID)
 	for _, f := range blocks {
 		a.Label(fmt.Sprintf("b%d", f.ID)).Op(vm.POP)
-		w.compileBlock(a, f.Prog, cancun)
+		last := ""
+		if len(f.Prog) > 0 {
+			last = f.Prog[len(f.Prog)-1].Op
+		}
+		halts := map[string]bool{"STOP": true, "RETURN": true, "REVERT": true, "INVALID": true, "SELFDESTRUCT": true}
+		w.compileBlock(a, f.Prog, cancun, f.Done && f.Err != "" && last != "" && !halts[last])
 	}
 	return a.Bytes()
 }
@@ -1092,7 +1103,15 @@ func (c *comparer) events() bool {
 	}
 	if strings.Join(gs, " ") != strings.Join(xs, " ") {
 		c.miss("ev.seq", "callbacks [%s], model [%s]", strings.Join(gs, " "), strings.Join(xs, " "))
-		return false
+		// the success flags seen by callers can still be lined up when the streams differ in outcomes only
+		if len(gs) != len(xs) {
+			return false
+		}
+		for i := range gs {
+			if gs[i] != xs[i] && !(strings.HasPrefix(gs[i], "exit(") && strings.HasPrefix(xs[i], "exit(")) {
+				return false
+			}
+		}
 	}
 	return true
 }
